@@ -8,7 +8,8 @@
 (* value is sum_i strength[i] (annealed) * excess_i with i the position in *)
 (* the CALLER's dict.  Impl = "position" must pass; Impl = "sorted"        *)
 (* (metrics re-ordered alphabetically, strengths left positional) must     *)
-(* fail.  One-step enumeration: every initial state is a scenario that the *)
+(* fail; so must Impl = "dropinf" (metrics with an infinite target dropped, *)
+(* strengths left positional).  One-step enumeration: every initial state is a scenario that the *)
 (* harness executes on the real DUCCIO.                                    *)
 (***************************************************************************)
 EXTENDS Duccio, TLC
@@ -22,11 +23,14 @@ Primes  == <<20000, 30000, 50000>>
 Scheds  == {<<1, 1>>, <<0, 4>>, <<1, 4>>, <<4, 4>>}
 Target  == 10
 
-Init == \E k \in {2, 3} : \E rank \in Perms(k), sp \in Perms(k), above \in (SUBSET (1..k)), x \in {1, 3}, sch \in Scheds :
-           /\ above # {} /\ Cardinality(above) <= 2
+\* unc: at most one metric is left unconstrained by an INFINITE target (a legal way of "reporting only" a metric); it
+\* contributes nothing whatever its cost, and must not disturb the pairing of the others
+Init == \E k \in {2, 3} : \E rank \in Perms(k), sp \in Perms(k), above \in (SUBSET (1..k)), x \in {1, 3}, sch \in Scheds,
+                          unc \in {u \in SUBSET (1..k) : Cardinality(u) <= 1} :
+           /\ above # {} /\ Cardinality(above) <= 2 /\ above \cap unc = {}
            /\ sc = [rank |-> rank, s |-> [i \in 1..k |-> Primes[sp[i]]],
-                    t |-> [i \in 1..k |-> Target],
-                    c |-> [i \in 1..k |-> IF i \in above THEN Target + x + i - 1 ELSE Target - i],
+                    t |-> [i \in 1..k |-> IF i \in unc THEN INF ELSE Target],
+                    c |-> [i \in 1..k |-> IF i \in above \cup unc THEN Target + x + i - 1 ELSE Target - i],
                     e |-> sch[1], n |-> sch[2]]
 Next == UNCHANGED sc
 Spec == Init /\ [][Next]_sc
